@@ -309,13 +309,13 @@ def r_announce(prog, R, rid="R-C10-ANNOUNCE"):
         facts = mf.cond_facts_at(b, i)
         has_len = cond_holds(facts, lambda op, l, rr: op == "truth" and is_call_to(l, "ares_buf_len"))
         others = [(c, p) for c, p in facts if not (
-            (p and is_call_to(c, "ares_buf_len")) or (p and is_flag_test(c, lambda x: is_field(x, "flags", "ares_conn"), "ARES_CONN_FLAG_TCP"))
+            (p and is_call_to(c, "ares_buf_len"))
             or (norm_cmp(c, p)[0] == "==" and is_var(norm_cmp(c, p)[1], "status") and name_of_const(norm_cmp(c, p)[2]) == "ARES_SUCCESS")
             or is_defensive_fact(fl, c, p))]
         if has_len:
             found = True
             if others:
-                r.viol("flush-write-interest", fl.name, fl.loc(el), "WRITE interest for leftover bytes is additionally conditional on: %s" % [render(c) for c, _ in others])
+                r.viol("flush-write-interest", fl.name, fl.loc(el), "WRITE interest for leftover bytes is additionally conditional on: %s (bytes left in out_buf on any other kind of connection, e.g. a UDP datagram the socket would not take, are then never flushed until the timeout)" % [render(c) for c, _ in others])
             else:
                 t = can_reach_exit_avoiding(fl, b, i, lambda e2: is_call_el(e2, "ares_conn_sock_state_cb_update"))
                 if t is not None:
